@@ -89,6 +89,12 @@ type streamEndNotSupportedData struct {
 }
 
 func (s *stream) setOffset(vbID uint16, offset *models.Offset, dirty bool) {
+	if s.observers == nil {
+		// the stream is closed (shutdown, or the closed window of a rebalance) and its offsets are gone:
+		// a late acknowledgement must not start a new, possibly lower, position that a save would write
+		return
+	}
+
 	if s.vbIDRange.In(vbID) {
 		if current, ok := s.offsets.Load(vbID); ok && current.SeqNo > offset.SeqNo {
 			return
